@@ -592,8 +592,10 @@ def run_check(pid, tier, seed, replay=None):
         assumptions=list(getattr(mod, 'ASSUMPTIONS', [])),
         wall_s=round(time.time() - t0, 2), violations=len(new) if new else (1 if (my_broken or divs) else 0))
     if not replay:
-        os.makedirs(os.path.join(VERIF, 'evidence'), exist_ok=True)
-        json.dump(ev, open(os.path.join(VERIF, 'evidence', pid + '.json'), 'w'), indent=1, default=str)
+        # runs against a scratch copy of the code (seeded changes, mutants) write their evidence elsewhere: evidence/ describes /repo only
+        evdir = os.environ.get('VERIF_EVIDENCE_DIR') or os.path.join(VERIF, 'evidence')
+        os.makedirs(evdir, exist_ok=True)
+        json.dump(ev, open(os.path.join(evdir, pid + '.json'), 'w'), indent=1, default=str)
     for l in out_lines:
         print(l)
     print('%s %s seed=%d: %d theorems (%d discharged), %d lines on %d cases, %d law instances, %d findings (%d known ids), %.1fs' %
